@@ -62,6 +62,8 @@ type WiScript struct {
 	Segs    []int         `json:"segs"`
 	Flush   bool          `json:"flush"` // flush after every segment and wait until the client has it
 	CL      bool          `json:"cl"`    // declare Content-Length
+	HeadFlush bool        `json:"headflush,omitempty"` // flush the header block alone first and wait until the client has it
+	Cut     bool          `json:"cut,omitempty"`       // the backend dies after the last (flushed) segment: no terminating chunk
 }
 type WiCase struct {
 	Cfg    WiCfg    `json:"cfg"`
@@ -138,7 +140,26 @@ func (b *wiBackend) ServeHTTP(w http.ResponseWriter, r *http.Request) {
 		w.Header().Set("Content-Length", fmt.Sprint(total))
 	}
 	w.WriteHeader(s.Status)
+	if s.HeadFlush {
+		w.(http.Flusher).Flush()
+		if progress != nil {
+			deadline := time.Now().Add(800 * time.Millisecond)
+			for progress.Load() < 0 && time.Now().Before(deadline) {
+				time.Sleep(200 * time.Microsecond)
+			}
+			if progress.Load() < 0 {
+				b.mu.Lock()
+				b.streamed = false
+				b.mu.Unlock()
+			}
+		}
+	}
 	off := 0
+	defer func() {
+		if s.Cut {
+			panic(http.ErrAbortHandler) // the server drops the connection without finishing the response
+		}
+	}()
 	for _, n := range s.Segs {
 		w.Write(detBytes(off, n))
 		off += n
@@ -517,6 +538,7 @@ func runWiGroup(g wiGroup, gidx int, emit func(c WiCase, coq string, stats map[s
 			}
 		}
 		var prog atomic.Int64
+		prog.Store(-1) // -1: the final header block has not arrived yet
 		be.set(c.Script, &prog)
 		through := rawExchangeP(front, wiRequestBytes(c.Req, host), c.Req.Method, 4*time.Second, func(n int) { prog.Store(int64(n)) })
 		be.mu.Lock()
@@ -526,6 +548,7 @@ func runWiGroup(g wiGroup, gidx int, emit func(c WiCase, coq string, stats map[s
 		dreq := c.Req
 		dreq.Path = joinPath(g.cfg.Base, c.Req.Path)
 		var prog2 atomic.Int64
+		prog2.Store(-1)
 		be.set(c.Script, &prog2)
 		direct := rawExchangeP(directAddr, wiRequestBytes(dreq, host), c.Req.Method, 4*time.Second, func(n int) { prog2.Store(int64(n)) })
 		// ID bookkeeping: every generated-looking ID must be new
@@ -549,8 +572,8 @@ func runWiGroup(g wiGroup, gidx int, emit func(c WiCase, coq string, stats map[s
 			B(g.cfg.Trace), Bytes(http.CanonicalHeaderKey(defaultHdr(g.cfg.TraceHdr, "X-Trace-ID"))), List(chain), Bytes(g.cfg.Base), Bytes("127.0.0.1"))
 		reqT := fmt.Sprintf("(mkWReq %s %s %s %s %s %d %d)", Bytes(c.Req.Method), Bytes(c.Req.Path), Bytes(c.Req.Query), Bytes(host), coqHdrs(canonList(c.Req.Headers)), c.Req.BodyLen, framingCode(c.Req.Framing))
 		sflags := 0
-		if c.Script.Flush && !c.Script.CL {
-			sflags = 1 // streaming exchange: flushed segments must arrive before the backend continues
+		if (c.Script.Flush || c.Script.HeadFlush) && !c.Script.CL {
+			sflags = 1 // streaming exchange: flushed segments (and a flushed header block) must arrive before the backend continues
 		}
 		coq := fmt.Sprintf("mkWiCase %s %d %s %d %s %s %s %s %s", cfgT, phase, reqT, sflags, coqRespView(direct), coqBackView(bview), coqRespView(through), B(streamed), B(unique))
 		stats["phase_"+c.Phase]++
@@ -784,6 +807,12 @@ func genWiCase(g *Rng, cfg WiCfg, k int, gidx int) WiCase {
 	}
 	s.CL = g.Chance(45)
 	s.Flush = g.Chance(50)
+	if !s.CL && g.Chance(12) { // a quiet event source: the header block is flushed on its own
+		s.HeadFlush = true
+	}
+	if !s.CL && s.Flush && len(s.Segs) > 0 && len(s.Interim) == 0 && g.Chance(8) { // the backend dies mid-response
+		s.Cut = true
+	}
 	c.Script = s
 	return c
 }
@@ -801,6 +830,9 @@ func wiCorpus() []wiGroup {
 		mk(idcfg, "normal", WiReq{Method: "GET", Path: "/noae", Headers: [][2]string{xf(5)}}, WiScript{Status: 200, Headers: [][2]string{{"Content-Type", "application/json"}}, Segs: []int{300}}),
 		mk(idcfg, "normal", WiReq{Method: "POST", Path: "/up", Headers: [][2]string{xf(6)}, BodyLen: 70000, Framing: "chunked"}, WiScript{Status: 201, Segs: []int{2}}),
 		mk(idcfg, "normal", WiReq{Method: "HEAD", Path: "/h", Headers: [][2]string{xf(7)}}, WiScript{Status: 200, Headers: [][2]string{{"Content-Type", "text/plain"}}, Segs: []int{9}, CL: true}),
+		// the header block flushed on its own, then one late event; a backend that dies after two flushed chunks
+		mk(idcfg, "normal", WiReq{Method: "GET", Path: "/quiet", Headers: [][2]string{xf(20)}}, WiScript{Status: 200, Headers: [][2]string{{"Content-Type", "text/event-stream"}}, Segs: []int{14}, Flush: true, HeadFlush: true}),
+		mk(idcfg, "normal", WiReq{Method: "GET", Path: "/dies", Headers: [][2]string{xf(21)}}, WiScript{Status: 200, Headers: [][2]string{{"Content-Type", "text/plain"}}, Segs: []int{10, 20}, Flush: true, Cut: true}),
 		// header blocks well above 8 KiB in both directions
 		mk(idcfg, "normal", WiReq{Method: "GET", Path: "/cookies", Headers: [][2]string{xf(8), {"Cookie", "s=" + strings.Repeat("y", 12000)}}},
 			WiScript{Status: 201, Headers: [][2]string{{"Content-Type", "text/plain"}, {"Set-Cookie", "a=" + strings.Repeat("x", 4000)}, {"Set-Cookie", "b=" + strings.Repeat("x", 4000)}, {"Set-Cookie", "c=" + strings.Repeat("x", 4000)}, {"Content-Security-Policy", strings.Repeat("p", 9000)}}, Segs: []int{5}, CL: true}),
